@@ -24,7 +24,7 @@
                     ensures final(self).outcome() == (if old(self).outcome() is None { Some(Ok::<BitsValue, RequestError>(BitsValue { range: iter.range, values: iter.spec_values() })) } else { old(self).outcome() }),
                 { unimplemented!() }
             }
-//@trusted client::requests::read_bits::Promise::{success,failure}: complete the callback / oneshot at most once (first completion wins) - Kani harness k_promise_bits
+//@trusted client::requests::read_bits::Promise::{success,failure}: complete the callback / oneshot at most once (first completion wins) - not cross-checked: Kani cannot handle Box<dyn FnOnce> + oneshot within 20 min
 //@item rodbus/src/client/requests/read_bits.rs | ReadBits
             impl ReadBits {
                 pub open spec fn wf(&self) -> bool { self.request.inner.wf() && self.request.inner.count <= 2000 }
@@ -82,7 +82,7 @@
                     ensures final(self).outcome() == (if old(self).outcome() is None { Some(Ok::<RegsValue, RequestError>(RegsValue { range: iter.range, values: iter.spec_values() })) } else { old(self).outcome() }),
                 { unimplemented!() }
             }
-//@trusted client::requests::read_registers::Promise::{success,failure}: complete the callback / oneshot at most once (first completion wins) - Kani harness k_promise_regs
+//@trusted client::requests::read_registers::Promise::{success,failure}: complete the callback / oneshot at most once (first completion wins) - not cross-checked: Kani cannot handle Box<dyn FnOnce> + oneshot within 20 min
 //@item rodbus/src/client/requests/read_registers.rs | ReadRegisters
             impl ReadRegisters {
                 pub open spec fn wf(&self) -> bool { self.request.inner.wf() && self.request.inner.count <= 125 }
